@@ -345,7 +345,7 @@ def run(sc, tape_mode="log", script=None, provider=None):
                          (lambda: ex.explain_many(x_data, y_data, **kw2))
                 c = one_call(0, fn, sc.rows, bg)
                 c["mode"] = sc.mode
-                if c["outcome"] == "exc":
+                if c["outcome"] == "exc" and getattr(sc, "repeat_after_fault", True):
                     # the explanation failed: the same object explains the same data again (nothing of the failed attempt
                     # may be left behind)
                     c2 = one_call(1, fn, sc.rows, bg)
